@@ -90,6 +90,8 @@ def strategy(tier):
       'client_id': st.sampled_from([None, None, '', '78', '7363616c657321', 'c3a9e282ac', '61' * 40]),
       'chunks': st.one_of(st.none(), st.just('bytes'), st.lists(st.integers(1, 9), min_size=1, max_size=5),
                           st.lists(st.sampled_from([1, 3, 4, 5, 64, 1000]), min_size=1, max_size=4)),
+      # most bytes one send() call of the socket accepts (sendall always takes everything), as a full socket buffer does
+      'send_max': st.sampled_from([None, None, 1, 64, 4096, 65536]),
   })
 
 
@@ -114,6 +116,7 @@ def execute(plan):
   with World(seed=0):
     net = SimNet()
     net.install()
+    net.send_max = plan.get('send_max')
     ch = plan.get('chunks')
     if ch:
       nt_reads = {'i': 0}
